@@ -134,7 +134,7 @@ func RunMutant(m Mutant, repo, verif string) MutantResult {
 		return res
 	}
 	res.Wall = rep.Wall
-	if m.Expect == "fail" {
+	if m.Expect == "fail" || m.Expect == "missed" {
 		// An obligation that merely ran out of the short limits of a mutant run (many mutants side by side) is decided
 		// again with the limits of the real check: a mutant counts as detected only by obligations that still fail then.
 		still := map[string]bool{}
@@ -187,6 +187,14 @@ func RunMutant(m Mutant, repo, verif string) MutantResult {
 				res.Detail = "detected, but not by the expected obligation " + m.Obl
 				return res
 			}
+		}
+		res.OK = true
+	case "missed":
+		// a documented miss: a property-breaking change the check is known not to report (kept in the corpus so that
+		// the day a strengthened contract reports it, the record is updated)
+		if len(rep.Violations) > 0 {
+			res.Detail = "documented as missed, but now DETECTED: update the record"
+			return res
 		}
 		res.OK = true
 	case "pass":
